@@ -391,3 +391,24 @@ package stringlib
 //@   exits ContextTerminationError
 //@   assert_before_call Push1#3: typeis($v.iface, int64) && $v.AsInt() == int64(si) + int64(i) + 1
 //@   assert_before_call Push1#4: typeis($v.iface, int64) && $v.AsInt() == int64(si) + int64(i) + int64(len(ptn))
+
+// ---------------------------------------------------------------------------
+// C15: gsub advances correctly over empty matches
+// ---------------------------------------------------------------------------
+// One iteration of the substitution loop (extracted verbatim).  Whatever the
+// pattern matched (anywhere at or after si): the scan position moves forward
+// (the loop terminates), at most one match is counted, and the only match that
+// is skipped is an empty match at si itself right after a non-empty one - the
+// scan then resumes one byte further with empty matches allowed again.
+//@ fragment gsub_step of gsub at for#1
+//@   prop C15
+//@   arith int
+//@   norte
+//@   nocover
+//@   requires 0 <= si && si <= len(s) && pat != nil && t != nil
+//@   modifies everything()
+//@   exits any
+//@   ensures fragOut_matchCount == matchCount || fragOut_matchCount == matchCount + 1
+//@   ensures fragOut_si >= si
+//@   ensures fragNext && fragOut_matchCount == matchCount && fragOut_si != si ==> !allowEmpty && fragOut_si == si + 1 && fragOut_allowEmpty   // the only match skipped is an empty one at si right after a non-empty match
+//@   ensures fragNext && fragOut_matchCount == matchCount + 1 && !anchored ==> fragOut_si > si   // a counted match always moves the scan forward
